@@ -421,6 +421,33 @@ Fixpoint wf (t : ty) : bool :=
 Definition wf_top (t : ty) : bool := wf t && negb (is_nothing t).
 End Dialect.
 
+(* The dialect as pytype really emits it additionally contains bare `type` (`x: type = int`, `type[Any]` after
+   SimplifyContainers) and `type[Any]`; [wf_full] admits them.  The round trip is refuted on [wf_full]
+   (Props/C06.v, conv_out_id_full_refuted) and proved on [wf]. *)
+Section DialectFull.
+Variable arity : cid -> nat.
+Fixpoint wf_full (t : ty) : bool :=
+  match t with
+  | TAny | TNothing => true
+  | TError => false
+  | TClass c => negb (c =? 0)
+  | TGeneric c ps =>
+      negb (c =? 0) && (length ps =? arity c)%nat && (0 <? arity c)%nat && forallb wf_full ps &&
+      (if c =? type_id
+       then match ps with
+            | [u] => nfree u && nodupb N.eqb (ubases u)
+            | _ => false
+            end
+       else true)
+  | TTuple ps => forallb wf_full ps
+  | TCallable a r => forallb wf_full a && wf_full r
+  | TUnion ts =>
+      (2 <=? length ts)%nat && forallb wf_full ts && forallb member_ok ts &&
+      nodupb N.eqb (map base ts) && nodupb key_eqb (flat_map mkeys1 ts)
+  end.
+Definition wf_full_top (t : ty) : bool := wf_full t && negb (is_nothing t).
+End DialectFull.
+
 (* a total order on types, only used to print unions in a canonical order *)
 Definition ty_rank (t : ty) : N :=
   match t with
@@ -477,3 +504,41 @@ Definition builtin_arity (c : cid) : nat :=
   | 4%N | 7%N => 2%nat
   | _ => 0%nat
   end.
+
+(* ------------------------------------------------------------------------------------------ *)
+(* The hand-off of one type expression from A's analysis to B's analysis, through either transport.
+
+   write side (io.py):
+     text    _write_pyi_output(pytd_utils.Print(ast))
+     pickle  write_pickle: serialize_ast.PrepareForExport = SourceToExportableAst(Print(ast)) = prep (parse (print ast));
+             pickle_utils.SerializeAndSave: SerializeAst (... CanonicalOrderingVisitor) then the msgspec encoder
+   read side (load_pytd.py):
+     text    ModuleLoader._load_pyi = parser.parse_string, then Loader.process_module (name resolution)
+     pickle  pickle_utils.LoadAst = msgspec decoder, then serialize_ast.ProcessAst (re-link class pointers)
+
+   The printer, parser, codec, canonical ordering and the resolution visitors belong to C05 / C12 / C04; here
+   they are parameters, and the theorems in Props/C06.v name what they need of them as premises. *)
+(* a stage of the hand-off keeps a type in the dialect and changes at most the order of union members *)
+Definition preserves (arity : cid -> nat) (f : ty -> ty) : Prop :=
+  forall a, wf_top arity a = true -> wf_top arity (f a) = true /\ canon (f a) = canon a.
+
+Section Handoff.
+Variables text bytes : Type.
+Variable print : ty -> text.                 (* pytd_utils.Print *)
+Variable parse : text -> option ty.          (* pyi parser *)
+Variable encode : ty -> bytes.               (* msgspec.msgpack Encoder(order="deterministic") *)
+Variable decode : bytes -> option ty.        (* msgspec.msgpack Decoder(type=SerializableAst) *)
+Variable resolve : ty -> ty.                 (* Loader.process_module: resolve_builtin/external/local types, FillInLocalPointers *)
+Variable prep : ty -> ty.                    (* SourceToExportableAst: LookupBuiltins .. ClassTypeToLateType *)
+Variable reorder : ty -> ty.                 (* SerializeAst: ClearClassPointers, CanonicalOrderingVisitor *)
+Variable post : ty -> ty.                    (* ProcessAst: _LookupClassReferences, FillLocalReferences *)
+
+Definition text_transport (t : ty) : option ty :=
+  match parse (print t) with Some a => Some (resolve a) | None => None end.
+
+Definition pickle_transport (t : ty) : option ty :=
+  match parse (print t) with
+  | Some a => match decode (encode (reorder (prep a))) with Some b => Some (post b) | None => None end
+  | None => None
+  end.
+End Handoff.
